@@ -400,7 +400,7 @@ pub fn run(ctx: &Ctx) -> Report
          input, force again, build: success with the recorded outputs. Re-execution is verified in the call log before anything is asserted. Non-trivial = multi-target \
          rule with a proper non-empty subset affected; distinct by case hash");
     rep.assume("declared sources are byte-identical across the three builds; Distinct clock");
-    let (cases, max_rules) = ctx.tier.pick((5000u32, 5usize), (80000, 9));
+    let (cases, max_rules) = ctx.tier.pick((12000u32, 5usize), (80000, 9));
     rep.absorb(drive::drive(ctx, 17, cases, || strategy(max_rules), test_case));
     rep
 }
